@@ -6,6 +6,15 @@ HERE = os.path.dirname(os.path.dirname(os.path.abspath(__file__)))
 
 CLAIMED = {
     # id: (technique, level text, level note, design ref)
+    "C02": ("MIR dominance chain over resolved public-coin / channel events, must-pass-through guards, def-use provenance in verify, perform_verification, evaluate_constraints",
+            "Decides that the checks soundness rests on lie on every accepting path of verify -> perform_verification for all "
+            "three extension arms: options validated first; coin seed binds context and public inputs; every challenge drawn "
+            "after the coin absorbed what it must bind; OOD consistency comparison between evaluate_constraints(..) and H(z) "
+            "from the proof; proof-of-work threshold before the query draw with the same nonce; reader results propagated; "
+            "acceptance = FRI verdict over the DEEP composition of commitment-checked data; evaluate_constraints combines "
+            "transition and all boundary groups. Numerical correctness of the evaluated constraints is not decided.",
+            "rustc nightly MIR; Python CFG/slice engine; user Air implementation evaluates the intended constraints",
+            "DESIGN.md section 4, C02"),
     "C03": ("MIR must-pass-through (edge-cut reachability) + def-use provenance on the verifier channels",
             "Decides, for all inputs at once, that every datum revealed after the query positions are fixed "
             "(trace rows, constraint rows, FRI layer values, FRI remainder) reaches the verifier only behind "
